@@ -2,8 +2,8 @@
 with the reason 'not built yet' until their check exists"""
 CHECKS = {
     "C01": dict(
-        technique="property-based testing: round-trip + layout differential against an independent codec (Hypothesis + exhaustive enum of type/return-code pairs)",
-        text="Generated SOME/IP messages and datagrams: build() compared byte-for-byte with an independent encoder, parse(build+suffix) round trip, accept/reject and field differential against an independent decoder on corrupted headers, and in-order delivery of concatenated messages through datagram_received. Sampled search (all type x return-code pairs exhaustively), not a proof.",
+        technique="property-based testing: round-trip + layout differential against an independent codec (Hypothesis + exhaustive enum of type/return-code pairs); thorough tier adds a coverage-guided atheris campaign with the same oracle in the target",
+        text="Generated SOME/IP messages and datagrams: build() compared byte-for-byte with an independent encoder, parse(build+suffix) round trip, accept/reject and field differential against an independent decoder on corrupted headers, and in-order delivery of concatenated messages through datagram_received of a plain SOME/IP endpoint and of a discovery endpoint (with undecodable SD payloads and foreign messages in between). Sampled search (all type x return-code pairs exhaustively), not a proof.",
         note="Trusted: harness/wire.py (independent codec), CPython struct. Fields are generated inside their wire widths only.",
     ),
     "C07": dict(
@@ -32,13 +32,13 @@ CHECKS = {
         note="Trusted: virtual loop, asyncio.StreamReader. The datagram decoder is the reference named by the statement (C01 ties it to the independent codec).",
     ),
     "C20": dict(
-        technique="property-based testing: decode-encode-decode idempotence with field-wise comparison through an independent decoder, inputs from a non-canonical independent encoder plus mutation scripts (Hypothesis), all 256 option type bytes enumerated",
+        technique="property-based testing: decode-encode-decode idempotence with field-wise comparison through an independent decoder, inputs from a non-canonical independent encoder plus mutation scripts (Hypothesis), all 256 option type bytes and all 65536 message-type x return-code bytes enumerated; thorough tier adds a coverage-guided atheris campaign",
         text="Every accepted input (SOME/IP message, SD message, SD entry, SD option) produced by a legal-but-non-canonical independent encoder and by mutating its output is decoded, re-encoded and decoded again; values must be equal with nothing left over, SOME/IP bytes identical, and kept information (unknown options, flags, protocol numbers, unreferenced options, raw indexes/counts) is compared through the independent decoder; the resolved path must not lose options.",
         note="Trusted: harness/wire.py. Rejected inputs are out of scope (C03).",
     ),
     "C03": dict(
-        technique="property-based testing / structured fuzzing: mutation scripts over independently encoded messages into every decoder (totality + exception-type contract) and metamorphic twin runs of a live endpoint with and without the rejected input",
-        text="Arbitrary bytes and mutated (also non-canonical) SOME/IP/SD messages are handed to every decoder (outcome must be value+true suffix, ParseError, or UnicodeDecodeError only with a non-ASCII configuration string found by an independent walk); the same bytes are delivered, unicast and multicast, into a running discovery endpoint holding discovery/subscription/session state and into a SimpleService endpoint: the call must return, nothing may reach the loop's exception handler, a datagram of rejected messages only must leave state and traces untouched, and twin runs (with the junk / with only its accepted projection, unicast-flag-clear messages reduced to their header) must be observationally identical.",
+        technique="property-based testing / structured fuzzing: mutation scripts over independently encoded messages into every decoder (totality + exception-type contract) and metamorphic twin runs of a live endpoint with and without the rejected input; thorough tier adds a coverage-guided atheris campaign on the decoders",
+        text="Arbitrary bytes and mutated (also non-canonical) SOME/IP/SD messages are handed to every decoder (outcome must be value+true suffix, ParseError, or UnicodeDecodeError only with a non-ASCII configuration string found by an independent walk); the same bytes are delivered, unicast and multicast, into a running discovery endpoint holding discovery/subscription/session state and into a SimpleService endpoint: the call must return, nothing may reach the loop's exception handler, a datagram of rejected messages only must leave a structural fingerprint of everything reachable from the protocol object and all traces untouched, and twin runs (with the junk / with only its accepted projection, unicast-flag-clear messages reduced to their header) must be observationally identical.",
         note="Trusted: harness/wire.py (SOME/IP header classification), virtual loop. Exceptions the library logs and swallows inside its own tasks are not counted as escaping. The atheris campaign of the thorough tier is coverage-guided and only approximately reproducible.",
     ),
     "C05": dict(
@@ -98,7 +98,7 @@ CHECKS = {
     ),
     "C04": dict(
         technique="property-based testing / fault injection on a deterministic virtual-time event loop: two unmodified SD stacks over a simulated network, Hypothesis timing configurations and disturbance scripts (stop/start, crash/restart, loss/duplication/delay windows) placed relative to pending timers, bounded-time convergence oracle; deterministic single-disturbance sweep",
-        text="An offering stack and a watching/auto-subscribing stack run on one virtual loop and exchange real datagrams through a simulated network; generated scripts of graceful stop/start, crash/restart (fresh protocol object, so reboot evidence is real) and fault windows (drop/duplicate/delay per datagram) are placed by delay or relative to the pending timers of either stack. One bound after the last disturbance, and again one bound later, the watcher's listener must say 'offered' iff the offerer is offering, and the offerer's listener 'subscribed' iff it offers and the watcher runs. A sweep places each single disturbance at -4RES/-RES/4/+RES/4/+4RES around the first pending timers at several phases.",
+        text="An offering stack and a watching/auto-subscribing stack run on one virtual loop and exchange real datagrams through a simulated network; generated scripts of graceful stop/start, crash/restart (fresh protocol object, so reboot evidence is real) and fault windows (drop/duplicate/delay per datagram) are placed by delay or relative to the pending timers of either stack, on IPv4 or IPv6 addresses. One bound after the last disturbance, and at every idle point of the following bound, the watcher's listener must say 'offered' iff the offerer is offering, and the offerer's listener 'subscribed' iff it offers and the watcher runs. A sweep places each single disturbance at -4RES/-RES/4/+RES/4/+4RES around the first pending timers at several phases.",
         note="Trusted: simulated network (no own-multicast loop-back), virtual loop, the bound formula with its deliberate slack. Infinite-TTL family restricted as the statement says (lossless, crash followed by restart, disturbances one bound apart).",
     ),
 }
